@@ -1,9 +1,19 @@
 package main
 
 import (
+	"bytes"
 	"encoding/json"
+	"fmt"
 	"math/rand"
 	"os"
+	"os/exec"
+	"sort"
+	"strings"
+
+	"github.com/TimothyStiles/poly/io/genbank"
+	"github.com/TimothyStiles/poly/io/gff"
+	"github.com/TimothyStiles/poly/io/polyjson"
+	"github.com/TimothyStiles/poly/seqhash"
 
 	"github.com/TimothyStiles/poly"
 	polyrandom "github.com/TimothyStiles/poly/random"
@@ -55,6 +65,157 @@ func extrasRecord(tier string, seed int64, emit func(interface{})) {
 		var backj interface{}
 		_ = json.Unmarshal(bb, &backj)
 		emit(map[string]interface{}{"k": "codonjson", "id": id, "w": toSparse(w), "json": real, "back": backj})
+	}
+	cliEvents(rng, n/3, emit)
+}
+
+// ---- the command line (cmd/poly), see spec/Cli.tla ----
+func cliEvents(rng *rand.Rand, n int, emit func(interface{})) {
+	cli := os.Getenv("POLY_CLI")
+	if cli == "" {
+		return
+	}
+	run := func(dir string, stdin []byte, args ...string) []byte {
+		cmd := exec.Command(cli, args...)
+		cmd.Dir = dir
+		if stdin != nil {
+			cmd.Stdin = bytes.NewReader(stdin)
+		}
+		out, _ := cmd.Output()
+		return out
+	}
+	for i := 0; i < n; i++ {
+		dir, _ := os.MkdirTemp("", "polycli-")
+		// input files of several kinds; some stems are shared so that two inputs race for one output
+		stems := []string{"a", "b", "sample.v2", "c"}
+		type inp struct {
+			path string
+			seq  poly.Sequence
+		}
+		var inputs []inp
+		content := map[string][]byte{}
+		for j := 0; j < 1+rng.Intn(4); j++ {
+			ext := []string{"gbk", "gb", "gff", "json"}[rng.Intn(4)]
+			path := stems[rng.Intn(len(stems))] + "." + ext
+			if _, dup := content[path]; dup {
+				continue
+			}
+			lines, _ := genGbRecord(rng, 400, 5)
+			gb := []byte(strings.Join(lines, "\n") + "\n")
+			var text []byte
+			var seq poly.Sequence
+			switch ext {
+			case "gbk", "gb":
+				text, seq = gb, genbank.Parse(gb)
+			case "gff":
+				g := genbank.Parse(gb)
+				g.Meta.Name, g.Meta.RegionStart, g.Meta.RegionEnd = "r"+fmt.Sprint(j), 1, len(g.Sequence)
+				g.Features = nil
+				text = gff.Build(g)
+				seq = gff.Parse(text)
+			default:
+				text, _ = json.MarshalIndent(genbank.Parse(gb), "", " ")
+				seq = polyjson.Parse(text)
+			}
+			os.WriteFile(dir+"/"+path, text, 0644)
+			content[path] = text
+			inputs = append(inputs, inp{path, seq})
+		}
+		other := "notes.txt"
+		os.WriteFile(dir+"/"+other, []byte("untouched"), 0644)
+		content[other] = []byte("untouched")
+		// poly hash on the same inputs
+		var ins0 []string
+		for _, in := range inputs {
+			ins0 = append(ins0, in.path)
+		}
+		hargs := append([]string{"hash"}, ins0...)
+		out := run(dir, nil, hargs...)
+		lines := [][]string{}
+		for _, l := range strings.Split(string(out), "\n") {
+			if l == "" {
+				continue
+			}
+			parts := strings.SplitN(l, "  ", 2)
+			if len(parts) == 2 {
+				lines = append(lines, parts)
+			} else {
+				lines = append(lines, []string{l, ""})
+			}
+		}
+		lib := []string{}
+		for _, in := range inputs {
+			h, _ := seqhash.Hash(in.seq.Sequence, in.seq.Meta.Locus.MoleculeType, in.seq.Meta.Locus.Circular, true)
+			lib = append(lib, h)
+		}
+		emit(map[string]interface{}{"k": "clihash", "inputs": nz(ins0), "lines": lines, "libhash": lib})
+		o := []string{"json", "gff", "gbk", "json", "out.json", "out.gbk"}[rng.Intn(6)]
+		args := []string{"c", "-o", o}
+		var ins []string
+		for _, in := range inputs {
+			args = append(args, in.path)
+			ins = append(ins, in.path)
+		}
+		run(dir, nil, args...)
+		// what does every path hold afterwards?
+		conv := func(s poly.Sequence) []byte {
+			ext := o
+			if k := strings.LastIndex(o, "."); k >= 0 {
+				ext = o[k+1:]
+			}
+			switch ext {
+			case "json":
+				b, _ := json.MarshalIndent(s, "", " ")
+				return b
+			case "gff":
+				return gff.Build(s)
+			default:
+				return genbank.Build(s)
+			}
+		}
+		pathSet := map[string]bool{other: true, "out.json": true, "out.gbk": true}
+		for _, in := range inputs {
+			pathSet[in.path] = true
+			st := in.path[:strings.LastIndex(in.path, ".")]
+			for _, e := range []string{"json", "gff", "gbk", "gb"} {
+				pathSet[st+"."+e] = true
+			}
+		}
+		var paths, after []string
+		for q := range pathSet {
+			paths = append(paths, q)
+		}
+		sort.Strings(paths)
+		for _, q := range paths {
+			b, err := os.ReadFile(dir + "/" + q)
+			before, had := content[q]
+			switch {
+			case err != nil:
+				after = append(after, "absent")
+			case had && bytes.Equal(b, before):
+				after = append(after, "unchanged")
+			default:
+				from := "other"
+				for _, in := range inputs {
+					if bytes.Equal(b, conv(in.seq)) {
+						from = in.path
+						// prefer the input whose output path this is
+						if st := in.path[:strings.LastIndex(in.path, ".")]; strings.HasPrefix(q, st+".") {
+							break
+						}
+					}
+				}
+				after = append(after, from)
+			}
+		}
+		emit(map[string]interface{}{"k": "cliconvert", "o": o, "inputs": nz(ins), "paths": paths, "after": after})
+		// pipe mode
+		if len(inputs) > 0 && strings.HasSuffix(inputs[0].path, ".gbk") {
+			got := run(dir, content[inputs[0].path], "c", "-i", "gbk", "-o", "json")
+			want, _ := json.MarshalIndent(inputs[0].seq, "", " ")
+			emit(map[string]interface{}{"k": "clipipe", "what": "convert -i gbk -o json", "same": bytes.Equal(got, want)})
+		}
+		os.RemoveAll(dir)
 	}
 }
 
